@@ -108,20 +108,19 @@ func checkC04(c *Ctx) {
 		classes = `{"s", "n", "l", "x"}`
 	}
 	nh := 0
+	nonTerm := &c17NonTerm{}
 	guard := []byte("+Inf -Inf NaN\n")
 	st := pool.NewStream(func(j *Job, r Result) {
 		var v c04Vec
 		VecDecode([]byte(j.Tag), &v)
 		in := c17NewInst(c.Seed, []byte(j.Tag))
 		in.prealloc(v.H...)
-		if r.Class == "crash" || r.Class == "timeout" || r.Class == "panic" {
-			r2 := pool.Do(j)
-			if r2.Class == r.Class {
-				report("json-does-not-terminate", map[string]any{"program": string(j.Prog), "input": string(j.Files[0].Data), "class": r.Class, "detail": r.Detail,
-					"why": "conversion must end with a value or an error (reproduced twice)"})
-				return
-			}
-			r = r2
+		// a dead or hung worker (endless recursion, stack overflow) is a violation, reproduced in isolation first
+		var bad bool
+		if r, bad = nonTerm.settle(pool, j, r); bad {
+			report("json-does-not-terminate", map[string]any{"program": string(j.Prog), "input": string(j.Files[0].Data), "class": r.Class, "detail": r.Detail,
+				"why": "conversion must end with a value or an error (reproduced in isolation)"})
+			return
 		}
 		out := r.Stdout
 		if j.N&2 != 0 { // the program first prints the non-finite numbers it computed; anything else: arithmetic is not what this check assumes
@@ -185,6 +184,9 @@ func checkC04(c *Ctx) {
 			var v c04Vec
 			VecDecode(raw, &v)
 			nv++
+			if c17Decided(c) { // the verdict is settled: do not keep the workers busy (or crashing) until TLC's timeout
+				return
+			}
 			in := c17NewInst(c.Seed, raw)
 			in.prealloc(v.H...)
 			mk := func(salt string, tail []string) c17Built {
@@ -195,11 +197,11 @@ func checkC04(c *Ctx) {
 			if b.HasX {
 				n = 2
 			}
-			st.Submit(Job{Kind: "run", Prog: b.Prog, Files: []FileIn{{Name: "in.json", Data: b.Doc}}, Tag: string(raw), N: n})
+			st.Submit(Job{Kind: "c17run", Prog: b.Prog, Files: []FileIn{{Name: "in.json", Data: b.Doc}}, Tag: string(raw), N: n})
 			b2 := mk("root", []string{"$ = c1"})
 			// GetRootJson shares ToGoValue with json(): in the quick tier every second heap (by vector hash) goes through it as well
 			if c.Thorough() || c17Seed(c.Seed, raw, "rootjson")%2 == 0 {
-				st.Submit(Job{Kind: "run", Prog: b2.Prog, Files: []FileIn{{Name: "in.json", Data: b2.Doc}}, Tag: string(raw), N: n | 1, WantJS: true})
+				st.Submit(Job{Kind: "c17run", Prog: b2.Prog, Files: []FileIn{{Name: "in.json", Data: b2.Doc}}, Tag: string(raw), N: n | 1, WantJS: true})
 			}
 			if c17Seed(c.Seed, raw, "bin")%int64(binEvery) == 0 && !b2.HasX { // by vector, not by arrival (TLC's workers print in any order)
 				binCases = append(binCases, binCase{prog: b2.Prog, doc: b2.Doc, exp: v.Exp, dev: v.Dev, in: in, tag: string(raw), fam: "bin-heap"})
@@ -299,6 +301,9 @@ func checkC04(c *Ctx) {
 			}
 		}})
 	std.Wait()
+
+	// ---- (v) array values that share storage but differ in length / start (MC_RenderView)
+	c04ViewFamily(c, pool, settle, report)
 
 	// ---- (iii) leaves x positions x entry points, (iv) chains up to the reader's nesting limit (c04b.go);
 	// the runs at the limit continue in the background until waitPart2
@@ -491,4 +496,86 @@ func checkC04(c *Ctx) {
 		"the output must parse to the model's tree (or be an error exactly when the model says so); a case is non-trivial when the heap has more than one container / the document is a container; distinct by (family, vector)")
 	c.Set("checker_cmd", "tlc MC_Render (Laws, VecJson) / MC_RenderDoc (Laws, Vec) / MC_JsonLeaf (Laws, Vec) / MC_RenderDeep (Laws, Vec); replay through lang.EvalProgram + Evaluator.GetRootJson in worker processes and the jqawk binary")
 	c.Set("bounds", map[string]any{"MaxC": 3, "MaxS": 2, "Classes": classes, "DocWidth": []int{2, 2, w3}})
+}
+
+// c04ViewFamily: every pair (thorough: triple) of windows over one storage, reachable from the one value
+// handed to json() / written by -o (spec/MC_RenderView.tla).  The program prints length() probes first;
+// a vector whose probes do not show the model's lengths is not compared (the implementation does not
+// have the values the model speaks of: C09's open finding alias-length was repaired or changed).
+func c04ViewFamily(c *Ctx, pool *Pool, settle func(fam, key string, verdict, why string, rep func() map[string]any, nontrivial bool), report func(name string, rep map[string]any)) {
+	c.Assume("views (arrays that share storage but differ in length, MC_RenderView) exist only through C09's open finding alias-length (an array value is a slice header copied on assignment); each vector first confirms by length() probes that the implementation realised the windows of the model, vectors whose probes differ are counted as not realised and not compared; a view stored inside its own storage is left open (the cycle test works per storage)")
+	var nReal, nUnreal int64
+	cfg, bounds := c17ViewCfg(c.Thorough())
+	nonTerm := &c17NonTerm{}
+	n := 0
+	st := pool.NewStream(func(j *Job, r Result) {
+		var v c17ViewVec
+		VecDecode([]byte(j.Tag), &v)
+		in := c17NewInst(c.Seed, []byte(j.Tag))
+		in.prealloc(v.H...)
+		c17ViewDistinct(in, v.H)
+		fam := []string{"view-json-builtin", "view-root-json"}[j.N&1]
+		b := c17BuildViews(in, v.H, rand.New(rand.NewSource(c17Seed(c.Seed, []byte(j.Tag), fam))), nil)
+		var bad bool
+		if r, bad = nonTerm.settle(pool, j, r); bad {
+			report("view-json-does-not-terminate", map[string]any{"program": string(j.Prog), "input": string(j.Files[0].Data), "class": r.Class, "detail": r.Detail,
+				"why": "conversion must end with a value or an error (reproduced in isolation)"})
+			return
+		}
+		out, realised := c17ViewProbe(r.Stdout, b.Probes)
+		rep := func() map[string]any {
+			return map[string]any{"program": string(j.Prog), "input": string(j.Files[0].Data), "vector": json.RawMessage(j.Tag), "probe_lengths_expected": b.Probes,
+				"got_class": r.Class, "got": c17Clip(r.Stdout), "got_root_json": c17Clip(r.JS), "root_json_err": r.JSErr, "err": r.ErrMsg, "detail": r.Detail}
+		}
+		if r.Class != "ok" {
+			report(fam, map[string]any{"case": rep(), "why": "building and converting an acyclic value must succeed"})
+			return
+		}
+		if !realised {
+			nUnreal++
+			return
+		}
+		nReal++
+		var verdict, why string
+		if j.N&1 == 0 {
+			verdict, why = c04Verdict(c, in, v.Exp, nil, out, false)
+		} else {
+			if strings.HasPrefix(r.JSErr, "panic") {
+				report(fam, map[string]any{"case": rep(), "why": "GetRootJson panicked"})
+				return
+			}
+			verdict, why = c04Verdict(c, in, v.Exp, nil, r.JS, r.JSErr != "")
+		}
+		if verdict != "ok" {
+			why += ": every array is written with its own elements, also when another array over the same storage was written before it"
+		}
+		settle(fam, fam+":"+j.Tag, verdict, why, rep, true)
+		n++
+		if n%4000 == 1 {
+			c.Sample(map[string]any{"family": fam, "program": string(j.Prog), "input": string(j.Files[0].Data), "expected": v.Exp, "stdout": c17Clip(r.Stdout), "root_json": c17Clip(r.JS)})
+		}
+	})
+	c.TLC(TLCOpt{Module: "MC_RenderView", Workers: 8, Heap: "6g", Cfg: cfg,
+		OnVec: func(raw []byte) {
+			if c17Decided(c) {
+				return
+			}
+			var v c17ViewVec
+			VecDecode(raw, &v)
+			for k, tail := range [][]string{{"print json(c1)"}, {"$ = c1"}} {
+				in := c17NewInst(c.Seed, raw)
+				in.prealloc(v.H...)
+				c17ViewDistinct(in, v.H)
+				fam := []string{"view-json-builtin", "view-root-json"}[k]
+				b := c17BuildViews(in, v.H, rand.New(rand.NewSource(c17Seed(c.Seed, raw, fam))), tail)
+				st.Submit(Job{Kind: "c17run", Prog: b.Prog, Files: []FileIn{{Name: "in.json", Data: b.Doc}}, Tag: string(raw), N: k, WantJS: k == 1})
+			}
+		}})
+	st.Wait()
+	c.Set("view_vectors_realised", nReal)
+	c.Set("view_vectors_not_realised", nUnreal)
+	c.Set("view_bounds", bounds)
+	if nReal == 0 {
+		c.Assume("NOTE: no view vector was realised in this run: the implementation no longer has arrays that share storage with different lengths; the family is vacuous")
+	}
 }
